@@ -432,7 +432,9 @@ func genC07(g *G) {
 }
 
 func genC18(g *G) {
-	genGenVrf(g)
+	if genGenVrf != nil {
+		genGenVrf(g)
+	}
 	n := 12
 	if g.thorough {
 		n = 400
